@@ -18,7 +18,7 @@ if benign:
         name = os.path.basename(d)
         if want and name not in want:
             continue
-        props = json.load(open(os.path.join(d, "meta.json"))).get("properties") or ALL
+        props = ALL if "--all-props" in args else (json.load(open(os.path.join(d, "meta.json"))).get("properties") or ALL)
         for p in props:
             tasks.append((name, d, p))
 else:
